@@ -40,6 +40,11 @@ type SimKV struct {
 	// FiredAfterWrite counts after-write callbacks that actually ran.
 	FiredAfterWrite int
 
+	// OnCommitted, if set, is called (without the lock, on the writing
+	// goroutine) after EVERY write transaction that committed: the seam for
+	// enumerating crash points between the write transactions of one call.
+	OnCommitted func(k int)
+
 	// Fired counters (what actually happened, not what was configured).
 	FiredCrashBefore, FiredCrashAfter, FiredFail int
 
@@ -193,7 +198,11 @@ func (s *SimKV) post(k int, err error) error {
 		s.afterAt, s.afterFn = 0, nil
 		s.FiredAfterWrite++
 	}
+	oc := s.OnCommitted
 	s.mu.Unlock()
+	if oc != nil {
+		oc(k)
+	}
 	if fn != nil {
 		fn()
 	}
